@@ -28,8 +28,10 @@ type writerFacts struct {
 	RuleApplies          bool `json:"ruleApplies"`          // generateValidatorChain asks ruleApplies; the Enum path asks enumRuleApplies
 	BoundArg             bool `json:"boundArg"`             // min/max/gt/gte/lt/lte arguments through boundArgument
 	ExtraRules           bool `json:"extraRules"`           // cases length, nonempty, positive, negative, nonnegative, nonpositive
+	JSONNumKinds         bool `json:"jsonNumKinds"`         // generateSliceValue: a slice literal for every integer / float element kind (not only int, float64)
 	MultiName            bool `json:"multiName"`            // analyzer: extractJSONName(field, name)
 	TagLiteral           bool `json:"tagLiteral"`           // analyzer: tagText (strconv.Unquote of the tag literal)
+	SkipTestFiles        bool `json:"skipTestFiles"`        // analyzer: AnalyzePackage skips files named *_test.go
 }
 
 func parseGo(path string) *ast.File {
@@ -211,6 +213,16 @@ func readWriterFacts(repo string) writerFacts {
 	wf.BoundArg = allOrNone("bound-argument", funcDecl(w, "boundArgument") != nil, calls(gvc, "boundArgument", false) == 6)
 	cs := caseStrings(gvc)
 	wf.ExtraRules = allOrNone("extra-rules", cs["length"], cs["nonempty"], cs["positive"], cs["negative"], cs["nonnegative"], cs["nonpositive"])
+	gsv := funcDecl(w, "generateSliceValue")
+	if gsv == nil {
+		die("writer facts: generateSliceValue not found in writer.go")
+	}
+	wf.JSONNumKinds = allOrNone("json-default-kinds", hasSelector(gsv, "reflect", "Int64"), hasSelector(gsv, "reflect", "Uint8"), hasSelector(gsv, "reflect", "Float32"))
+	ap := funcDecl(a, "AnalyzePackage")
+	if ap == nil {
+		die("writer facts: AnalyzePackage not found in analyzer.go")
+	}
+	wf.SkipTestFiles = hasStringLit(ap, "_test.go")
 	ej := funcDecl(a, "extractJSONName")
 	if ej == nil {
 		die("writer facts: extractJSONName not found in analyzer.go")
